@@ -412,6 +412,51 @@ pub fn budget_case_ext(dir: &std::path::PathBuf, j: usize, word: &[usize], relis
     (steps, None)
 }
 
+/// A good reply that lists nobody (the tracker knows no other peer yet) is a success, not a fault:
+/// the announce is over. When the next connection ends with no candidate left, the client must
+/// announce again, and the peers listed then must be contacted.
+pub fn empty_reply_case(dir: &std::path::PathBuf, empties: usize, verbose: bool) -> (u64, Option<(&'static str, String)>) {
+    let t = Torrent::new("t", 5, &[("f", 15)], true);
+    // P (0) stays; Q (1), S (3), T (4) leave one after the other; R (2) is listed at the end
+    let cfgs = vec![peer_cfg(0, true), peer_cfg(1, true), peer_cfg(2, true), peer_cfg(3, true), peer_cfg(4, true)];
+    let mut script = vec![TrackerOutcome::Good(vec![0, 1, 3, 4])];
+    for _ in 0..empties {
+        script.push(TrackerOutcome::Good(vec![]));
+    }
+    script.push(TrackerOutcome::Good(vec![2]));
+    let mut w = FullWorld::new(&t, &cfgs, script, TrackerOutcome::Good(vec![2]), dir);
+    let mut steps = 1u64;
+    let desc = |w: &FullWorld| format!("announces={} session={} R.connects={}", w.announces.borrow().len(), w.session_key(), w.peers[2].connects);
+    for i in [0usize, 1, 3, 4] {
+        if w.peers[i].connects != 1 {
+            return (steps, Some(("MACHINERY", format!("peer {} was not contacted after the first reply: {}", i, desc(&w)))));
+        }
+        let id = w.peers[i].cfg.id;
+        w.step(&FEv::Feed(i, refwire::encode(&refwire::handshake(t.meta.info_hash(), &id))));
+        steps += 1;
+    }
+    // connections end one at a time; each time no candidate is left, so each time an announce is owed
+    let leavers = [1usize, 3, 4];
+    for (n, i) in leavers.iter().enumerate().take(empties + 1) {
+        w.step(&FEv::Close(*i));
+        w.step(&FEv::Advance(2000));
+        steps += 2;
+        if verbose {
+            println!("peer {} left: {}", i, desc(&w));
+        }
+        if w.announces.borrow().len() != n + 2 {
+            return (steps, Some(("listed-peers-not-contacted-after-recovery", format!("after {} good replies that listed nobody, a connection ended with no candidate left, but the client did not announce again ({} announces so far): {}", n, w.announces.borrow().len(), desc(&w)))));
+        }
+    }
+    if !w.panics.is_empty() {
+        return (steps, Some(("panic-during-tracker-faults", format!("{:?}", w.panics))));
+    }
+    if w.peers[2].connects != 1 {
+        return (steps, Some(("listed-peers-not-contacted-after-recovery", format!("{} good replies listed nobody, the next one lists R: R was contacted {} times: {}", empties, w.peers[2].connects, desc(&w)))));
+    }
+    (steps, None)
+}
+
 /// The manager is busy (it awaits something inside a handler) while the tracker task goes on
 /// failing and finally succeeds: the reports pile up in the tracker queue and are worked off in one
 /// go when the manager is back. Pumped world (the harness plays the manager loop and can therefore
@@ -658,6 +703,21 @@ fn fault_part(ctx: &Ctx) -> (u64, u64, Vec<Value>) {
             }
         }
     }
+    // good replies that list nobody
+    {
+        let dir = core::private_cwd("c19", "empty");
+        for empties in 0..=2usize {
+            let (n, v) = empty_reply_case(&dir, empties, false);
+            steps += n;
+            if let Some((class, why)) = v {
+                if class == "MACHINERY" {
+                    ctx.machinery_error(why);
+                } else {
+                    ctx.violation(class, why, json!({"kind": "empty", "empties": empties}));
+                }
+            }
+        }
+    }
     let mut bcases: Vec<(usize, Vec<usize>, bool)> = vec![];
     for j in 7..=13usize {
         for word in [vec![], vec![0], vec![2, 3], vec![1, 0, 3]] {
@@ -739,7 +799,7 @@ pub fn run(ctx: &Ctx) -> Outcome {
     o.set("fault_sequences", json!(fault_runs));
     o.set("evaluations", json!(sigma + docs.len() as u64));
     o.set("distinct_nontrivial", json!(accepted));
-    o.set("rule", json!(format!("(a) every string over the C16 alphabet of length 0..={} through TrackerResp::from_bencode (totality); structured replies = peers list of 0..3 entries drawn from 11 entry shapes (2 good, 9 malformed) or missing/ill-typed x 5 interval shapes x 5 failure-reason shapes (absent, text, empty, non-UTF-8, ill-typed), all distinct; non-trivial = structured replies read as success. (b) full-session world (real event_loop, tracker task, retry loop, handle_tracker_cmd, spawn_peer_handler over the seams): tracker outcome words F^n.S for every F-word of length <= 3 (thorough 4) over the four fault kinds (refused, HTTP 500, garbage body, failure reason) and the four homogeneous words for every longer n up to 70 (thorough 100), with a live connection P, each word alone and with another connection ending after 0..2 failures (a KillReq in the middle of the fault sequence); after every failure P toggles choke/unchoke and the manager must have processed it in that quiescent step; after S the listed peers must be contacted; late-fault cases: for words of length 2..3 with a second connection ending during the outage (two announce tasks alive) the tracker fails once more after its first good reply, every fault kind; after every case the probe connection toggles once more and must be served; completion cases: for words of length 2..3 (and the long ones) P delivers every piece after 0..1 failures and another connection ends, so the extractor runs and finishes during the outage, same obligations; busy-manager cases (pumped world): for every fault word of length 1..3 and every point 1..=n from which the manager stays away from its queues (it awaits something inside a handler) until after the good reply, the reports pile up in the tracker queue; back at work it must dial the listed peer; also with a second connection ending after the good reply was queued (its KillReq is worked off before the TrackerResp) and every later announce refused: the manager must not end up waiting for an announce that cannot succeed; budget cases: the good reply (after 0..3 faults) arrives while 7..=13 connected peers are interesting (15 connections from two earlier announces): no panic or hang, still serving, min(3, max(0, 11 - j)) of the 3 listed peers dialled at once and the others exactly once as three connections end; states = fault words, transitions = events executed", max_len)));
+    o.set("rule", json!(format!("(a) every string over the C16 alphabet of length 0..={} through TrackerResp::from_bencode (totality); structured replies = peers list of 0..3 entries drawn from 11 entry shapes (2 good, 9 malformed) or missing/ill-typed x 5 interval shapes x 5 failure-reason shapes (absent, text, empty, non-UTF-8, ill-typed), all distinct; non-trivial = structured replies read as success. (b) full-session world (real event_loop, tracker task, retry loop, handle_tracker_cmd, spawn_peer_handler over the seams): tracker outcome words F^n.S for every F-word of length <= 3 (thorough 4) over the four fault kinds (refused, HTTP 500, garbage body, failure reason) and the four homogeneous words for every longer n up to 70 (thorough 100), with a live connection P, each word alone and with another connection ending after 0..2 failures (a KillReq in the middle of the fault sequence); after every failure P toggles choke/unchoke and the manager must have processed it in that quiescent step; after S the listed peers must be contacted; late-fault cases: for words of length 2..3 with a second connection ending during the outage (two announce tasks alive) the tracker fails once more after its first good reply, every fault kind; after every case the probe connection toggles once more and must be served; completion cases: for words of length 2..3 (and the long ones) P delivers every piece after 0..1 failures and another connection ends, so the extractor runs and finishes during the outage, same obligations; busy-manager cases (pumped world): for every fault word of length 1..3 and every point 1..=n from which the manager stays away from its queues (it awaits something inside a handler) until after the good reply, the reports pile up in the tracker queue; back at work it must dial the listed peer; also with a second connection ending after the good reply was queued (its KillReq is worked off before the TrackerResp) and every later announce refused: the manager must not end up waiting for an announce that cannot succeed; empty-reply cases: 0..2 good replies that list nobody, each followed by a connection ending with no candidate left (an announce is owed each time), then a reply listing a new peer, which must be contacted; budget cases: the good reply (after 0..3 faults) arrives while 7..=13 connected peers are interesting (15 connections from two earlier announces): no panic or hang, still serving, min(3, max(0, 11 - j)) of the 3 listed peers dialled at once and the others exactly once as three connections end; states = fault words, transitions = events executed", max_len)));
     o.set("sigma_strings", json!(sigma));
     o.set("structured_replies", json!(docs.len()));
     let picks = ctx.seeded_pick(docs.len(), 4);
@@ -761,6 +821,20 @@ pub fn replay(_ctx: &Ctx, r: &Value) -> i32 {
         let dir = core::private_cwd("c19", "replay");
         core::set_quiet_panics(true);
         return match budget_case_ext(&dir, r["interesting"].as_u64().unwrap() as usize, &word, r["relist"].as_bool().unwrap_or(false), true).1 {
+            Some((class, why)) => {
+                println!("VIOLATION property=C19 replay=<this file>\n  class={} {}", class, why);
+                1
+            }
+            None => {
+                println!("holds for this case");
+                0
+            }
+        };
+    }
+    if r["kind"] == "empty" {
+        let dir = core::private_cwd("c19", "replay");
+        core::set_quiet_panics(true);
+        return match empty_reply_case(&dir, r["empties"].as_u64().unwrap() as usize, true).1 {
             Some((class, why)) => {
                 println!("VIOLATION property=C19 replay=<this file>\n  class={} {}", class, why);
                 1
